@@ -18,6 +18,7 @@ func C09(c *Ctx) {
 	r.Explanation = "Language preservation over all grammars and inputs is not statically decidable; the optimizer is a set of local rewrites whose side conditions are visible in the code. Decided: (a) every expression type whose fields the optimizer stores to in place, and every type with Expression children, is deep-copied by cloneExpr (fresh node, children cloned, mutated slices copied), so an inlined rule body never shares mutable structure with its original or with other inlined copies; (b) merging alternatives into one character class is set union, which is only valid for non-inverted classes with equal case-folding flags and single-rune literals: every merge case carries those guards; (c) Walk and cloneExpr handle all 18 kinds (no panicking default reachable, all children visited); (d) a rule is removed only if it is unused and not protected, and the protected set is the alternate entrypoints plus the first rule, wired from the command line. Not decided: semantic equivalence of each rewrite beyond its side conditions; label scope effects of inlining."
 	r.Assumptions = []string{"the rewrites are language-preserving when their side conditions hold (choice/sequence flattening, single-element unwrapping, literal concatenation, class union)"}
 	r.Rule("C09-a", "for every (type, field) the optimizer visitors store to, and every type with Expression children: cloneExpr has a case returning a fresh &T{…} whose Expression children are cloneExpr results and whose mutated slice fields are fresh copies")
+	r.Rule("C09-e", "closed world of rewrites: the optimizer visitors store only to the (type, field) pairs of the documented rewrites (operand slots of the composite kinds, LitMatcher.Val, the member lists and Val of CharClassMatcher, Grammar.Rules); a store to any other field is a rewrite no side-condition rule covers")
 	r.Rule("C09-b", "each case of the alternative-merge switch that builds or extends a CharClassMatcher requires !X.Inverted for every class operand, IgnoreCase equality of the two operands and a single rune for every literal operand")
 	r.Rule("C09-c", "ast.Walk and cloneExpr: one case per expression kind; Walk recurses into every Expression child; no kind reaches a panicking default")
 	r.Rule("C09-d", "rules are removed only under !used && !protected; protectedRules = alternateEntrypoints ∪ {first rule}; main passes -alternate-entrypoints to ast.Optimize")
@@ -134,6 +135,22 @@ func cloneOwnership(c *Ctx, rule string, only map[string]bool) {
 		}
 	}
 	r.Analysed["types_mutated_in_place"] = len(mutated)
+	if rule == "C09-a" {
+		known := map[string]bool{"ActionExpr.Expr": true, "AndExpr.Expr": true, "NotExpr.Expr": true, "LabeledExpr.Expr": true, "OneOrMoreExpr.Expr": true,
+			"ZeroOrMoreExpr.Expr": true, "ZeroOrOneExpr.Expr": true, "ChoiceExpr.Alternatives": true, "SeqExpr.Exprs": true, "LitMatcher.Val": true,
+			"CharClassMatcher.Chars": true, "CharClassMatcher.Ranges": true, "CharClassMatcher.UnicodeClasses": true, "CharClassMatcher.Val": true,
+			"ActionExpr.FuncIx": true, "AndCodeExpr.FuncIx": true, "NotCodeExpr.FuncIx": true, "StateCodeExpr.FuncIx": true,
+			"RecoveryExpr.Expr": true, "RecoveryExpr.RecoverExpr": true}
+		var extra []string
+		for m := range mutated {
+			if !known[m.kind+"."+m.field] {
+				extra = append(extra, m.kind+"."+m.field+" ("+g.Where(mutated[m])+")")
+			}
+		}
+		sort.Strings(extra)
+		r.Check(len(extra) == 0, "C09-e", "G.ast.optimizer:closed-set-of-rewritten-fields", "", "ast/ast_optimize.go", fmt.Sprintf("%d (type, field) pairs rewritten in place, all belonging to the documented rewrites", len(mutated)),
+			"the optimizer (or builder) now stores to "+strings.Join(extra, ", ")+": a rewrite that no side-condition rule of this property covers (e.g. pruning the label list of a recovery operator changes which handler catches a throw)")
+	}
 	var names []string
 	for k := range needClone {
 		names = append(names, k)
